@@ -116,6 +116,7 @@ def run(db, cx):
     single_booking(db, cx)
     momentum_closure(db, cx)
     unit_directions(db, cx)
+    secondary_complete(db, cx)
 
 
 def threshold_pairing(db, cx):
@@ -415,3 +416,27 @@ def unit_directions(db, cx):
                       why="directions are used without renormalisation by the geometry and by the "
                           "next interaction")
     cx.floor("direction writes in interactors", n, 15)
+
+
+def secondary_complete(db, cx):
+    """C04.10-secondary-complete (sibling agreement): whoever fills one field of a Secondary
+    fills all three - particle type, energy and direction.  A secondary with a default
+    particle id or a zero direction is not a valid track."""
+    tab = {}
+    where = {}
+    for nm in db.find(r"^celeritas::.*(Interactor|FinalStateHelper|AtomicRelaxation)::"):
+        for f in db.get(nm):
+            for (_b, _i, ev) in f.events("write"):
+                pl = path_leaf(ev.get("path")) or ""
+                if not pl.startswith(C + "Secondary::"):
+                    continue
+                obj = (ev.get("lhs") or "").replace("this->", "").rsplit(".", 1)[0].rsplit("->", 1)[0]
+                key = (nm.split("::")[-2], obj)
+                tab.setdefault(key, set()).add(pl.split("::")[-1])
+                where.setdefault(key, short(ev["loc"]))
+    cx.floor("secondaries filled field by field", len(tab), 8)
+    for key, fields in sorted(tab.items()):
+        missing = sorted({"particle_id", "energy", "direction"} - fields)
+        cx.ob("C04.10-secondary-complete", "%s: `%s` gets particle_id, energy and direction" % key,
+              not missing, "missing: %s" % ", ".join(missing) if missing else "all three written",
+              where[key], why="an emitted secondary with a default field is an invalid track")
